@@ -155,9 +155,9 @@ def check_classical(ctx, prob, pred, reps, kind, tag="rand"):
     branch = f"classical/{kind}/reps={reps}/" + ("pool" if it_cur > 1000 else "loop") + ("/enum-incomplete" if it_cur < it_fix else "")
     ctx.case(desc, _nontrivial(shape, pred), branch)
     prob0, pred0 = prob.copy(), pred.copy()
-    game = NonlocalGame(prob, pred, reps)
-    attr_p, attr_v = copy.deepcopy(game.prob_mat), copy.deepcopy(game.pred_mat)
     try:
+        game = NonlocalGame(prob, pred, reps)
+        attr_p, attr_v = copy.deepcopy(game.prob_mat), copy.deepcopy(game.pred_mat)
         impl = game.classical_value()
     except Exception as e:  # noqa: BLE001
         ctx.violation(f"classical_value raised {type(e).__name__}: {str(e)[:200]} on a valid game {shape} reps={reps}",
@@ -243,7 +243,12 @@ def check_product(ctx, shape, reps):
     prob = (np.arange(ai * bi).reshape(ai, bi) + 2).astype(float)
     desc = {"fn": "product_game", "shape": list(shape), "reps": reps}
     ctx.case(desc, bool(ao != bo and ai != bi and (ao >= 2 or ai >= 2) and (bo >= 2 or bi >= 2)), f"product/reps={reps}")
-    game = NonlocalGame(prob, pred, reps)
+    try:
+        game = NonlocalGame(prob, pred, reps)
+    except Exception as e:  # noqa: BLE001
+        ctx.violation(f"NonlocalGame(prob, pred, reps={reps}) raised {type(e).__name__}: {str(e)[:200]} for shape {shape}",
+                      {"function": "NonlocalGame.__init__(reps)", "args": desc, "impl": repr(e)[:300], "theorem": "productGame_pred"})
+        return
     m = ctx.lean().ask("c07_product_game", _game_args(prob, pred, reps))
     ok = (list(np.shape(game.pred_mat)) == m["shape"] and _fl(game.pred_mat) == [_frac(v) for v in m["pred"]]
           and list(np.shape(game.prob_mat)) == m["shape"][2:] and _fl(game.prob_mat) == [_frac(v) for v in m["prob"]] and game.reps == m["reps"])
@@ -290,7 +295,12 @@ def check_bcs(ctx, n, cons, dtype="int"):
     desc = {"fn": "from_bcs_game", "n": n, "constraints": flat, "dtype": dtype}
     dep = [[bool(np.diff(a, axis=i).any()) for i in range(n)] for a in arrs]
     ctx.case(desc, any(not all(d) for d in dep) and len({tuple(f) for f in flat}) > 1, f"bcs/n={n}/m={len(cons)}")
-    game = NonlocalGame.from_bcs_game(arrs)
+    try:
+        game = NonlocalGame.from_bcs_game(arrs)
+    except Exception as e:  # noqa: BLE001
+        ctx.violation(f"from_bcs_game raised {type(e).__name__}: {str(e)[:200]}",
+                      {"function": "NonlocalGame.from_bcs_game", "args": desc, "impl": repr(e)[:300], "theorem": "bcs_pred_iff"})
+        return
     m = ctx.lean().ask("c07_bcs_game", {"n": n, "constraints": flat})
     if "reject" in m:
         raise InfraError(f"driver rejected BCS system: {m}")
@@ -348,7 +358,11 @@ def _sdp_worker(task):
 
     prob = np.array(task["prob"], dtype=float).reshape(task["pshape"])
     pred = np.array(task["pred"], dtype=float).reshape(task["shape"])
-    game = ng.NonlocalGame(prob, pred, task["reps"])
+    try:
+        game = ng.NonlocalGame(prob, pred, task["reps"])
+    except Exception as e:  # noqa: BLE001
+        return {"calls": [{"op": "__init__", "value": None, "err": f"{type(e).__name__}: {str(e)[:200]}", "solvers": [], "unchanged": True}],
+                "final_prob": [], "final_pred": [], "final_reps": -1}
     orig_povm = ng.random_povm
     state = {"k": 0}
 
